@@ -945,6 +945,7 @@ fn start_mock(port: u16, table: Option<Vec<(DomainName, Vec<ResourceRecord>)>>) 
                     }
                     continue;
                 }
+                let cut_udp = question.name.labels.first().map_or(false, |l| l.octets().starts_with(b"cutudp"));
                 match table.iter().find(|(n, _)| *n == question.name) {
                     Some((_, rrs)) => {
                         resp.answers = rrs
@@ -960,7 +961,9 @@ fn start_mock(port: u16, table: Option<Vec<(DomainName, Vec<ResourceRecord>)>>) 
                     None => resp.header.rcode = Rcode::NameError,
                 }
                 if let Ok(bytes) = resp.to_octets() {
-                    let _ = sock.send_to(&bytes, peer);
+                    // a datagram that ends inside the last record's RDATA (and does not say so with TC)
+                    let n = if cut_udp { bytes.len().saturating_sub(4) } else { bytes.len() };
+                    let _ = sock.send_to(&bytes[..n], peer);
                 }
             }
         });
@@ -999,7 +1002,10 @@ fn start_mock(port: u16, table: Option<Vec<(DomainName, Vec<ResourceRecord>)>>) 
                     if let Ok(bytes) = resp.to_octets() {
                         let mut wire = (bytes.len() as u16).to_be_bytes().to_vec();
                         wire.extend_from_slice(&bytes);
-                        let _ = stream.write_all(&wire);
+                        // "big1…": the connection dies after the length prefix and ONE octet of the message
+                        let cut = question.name.labels.first().map_or(false, |l| l.octets().starts_with(b"big1"));
+                        let n = if cut { 3 } else { wire.len() };
+                        let _ = stream.write_all(&wire[..n]);
                     }
                 }
             });
@@ -1057,6 +1063,10 @@ pub fn run_forward(r: &mut Rng, n: usize, out: &mut Out) {
         // a name whose answer is only available over TCP (the UDP reply is truncated)
         let big = fwd_name("big.ext.");
         table.push((big.clone(), vec![a_rr(&big, 99, 300)]));
+        let big1 = fwd_name("big1.ext.");
+        table.push((big1.clone(), vec![a_rr(&big1, 98, 300)]));
+        let cutudp = fwd_name("cutudp.ext.");
+        table.push((cutudp.clone(), vec![a_rr(&cutudp, 97, 300)]));
         // the forwarder also has (wrong) data for names that are local: it must never be asked
         let local_host = fwd_name("h0.lan.");
         let blocked = fwd_name("blocked.ext.");
@@ -1098,7 +1108,11 @@ pub fn run_forward(r: &mut Rng, n: usize, out: &mut Out) {
                 3 => (blocked.clone(), "hosts"),
                 4 => (alias.clone(), "ext-alias"),
                 5 => (fwd_name("nx.ext."), "ext-unknown"),
-                6 => (big.clone(), "ext-tcp"),
+                6 => match r.below(4) {
+                    0 => (big1.clone(), "ext-tcp-cut"),
+                    1 => (cutudp.clone(), "ext-udp-cut"),
+                    _ => (big.clone(), "ext-tcp"),
+                },
                 _ => (r.pick(&names).clone(), "ext"),
             };
             let rd = !r.chance(1, 4);
@@ -1162,7 +1176,17 @@ pub fn run_forward(r: &mut Rng, n: usize, out: &mut Out) {
                             if !rd && !asked.is_empty() {
                                 v.push("fail:C09:recursion-without-rd".into());
                             }
-                            if rd && kind == "ext-tcp" {
+                            if kind == "ext-tcp-cut" || kind == "ext-udp-cut" {
+                                // a malformed upstream reply (cut short): it supplies nothing - the client still
+                                // gets a reply (a panicking resolver task shows up as no reply, caught above),
+                                // and no record in it, since neither upstream nor local data supplied one
+                                // (after a cut-short datagram the retry over TCP may legitimately fetch the
+                                // forwarder's real record)
+                                let real = if kind == "ext-udp-cut" { want(97) } else { want(98) };
+                                if !m.answers.is_empty() && !(kind == "ext-udp-cut" && addrs == real && m.answers.len() == 1) {
+                                    v.push("fail:C08:record-from-nowhere".into());
+                                }
+                            } else if rd && kind == "ext-tcp" {
                                 // truncated over UDP: the retry over TCP must reach the same forwarder, and its
                                 // answer is what the client gets
                                 if addrs != want(99) {
